@@ -216,3 +216,33 @@ Proof.
     congruence. }
   rewrite V0, V1 in U. vm_compute in U. discriminate.
 Qed.
+
+(** ** Statements used by Props/C10.v *)
+
+Theorem mt_invariant_checker :
+  forall s, mt_ok_b s = true <->
+    (WF s /\ s_kind s = KMtbdd /\ forall t c, term_val s t = Some c -> wf (decode c)).
+Proof.
+  intros s. rewrite mt_ok_b_spec. split.
+  - intros B. split; [apply (mo_wf s B)|]. split; [apply (mo_kind s B) | apply (mo_vals s B)].
+  - intros [A [B C]]. constructor; assumption.
+Qed.
+
+Theorem mt_code_bijection :
+  (forall v, decode (code v) = v) /\ (forall n, code (decode n) = n).
+Proof. exact (conj decode_code code_decode). Qed.
+
+Theorem mt_hypotheses_satisfiable :
+  MtOK ex0 /\ MtOK ex1 /\ MCacheOK ac_get ex1 [] /\
+  ref_ok ex1 ex_f /\ ref_ok ex1 ex_x0 /\ Cube ex1 ex_x0 [(0, true)] /\
+  vt ex1 ex_f = [Some (INum 0); Some (INum 3); Some (INum 1); Some (INum 4)].
+Proof.
+  split; [exact ex0_ok|]. split; [exact ex1_ok|]. split; [apply mac_empty_ok|].
+  split; [vm_compute; eexists; reflexivity|]. split; [vm_compute; eexists; reflexivity|].
+  split; [apply (cube_lits_sound ex1 ex1_ok 3); vm_compute; reflexivity | exact ex_f_table].
+Qed.
+
+Theorem mt_cache_instances :
+  lossy ac_get ac_add /\ lossy nc_get nc_add /\
+  (forall s, MCacheOK ac_get s []) /\ (forall s c, MCacheOK nc_get s c).
+Proof. exact (conj ac_lossy (conj nc_lossy (conj mac_empty_ok mnc_ok))). Qed.
